@@ -98,6 +98,26 @@ package swamp
 //@ trusted func (github.com/hydraide/hydraide/app/core/hydra/swamp/beacon.Beacon).PushManyFromMap(b, m)
 //@ trusted func (github.com/hydraide/hydraide/app/core/hydra/swamp/beacon.Beacon).SetInitialized(b, v)
 
+// treasuresForBeacon (property C07): the records a cold-built time index is filled with are EXACTLY
+// the records of the swamp that carry the attribute the index is ordered by (creation / update /
+// expiry time != 0); every other index gets all records.
+//@ trusted func (github.com/hydraide/hydraide/app/core/hydra/swamp/beacon.Beacon).GetAll(b) (m)
+//@   ensures forall k in keys(m): m[k] != nil
+//@ pure attrof(bc, t) = ite(bc == BeaconTypeCreationTime, U_treasure_created(t), ite(bc == BeaconTypeUpdateTime, U_treasure_modified(t), ite(bc == BeaconTypeExpirationTime, U_treasure_exp(t), 1)))
+//@ func (*swamp).treasuresForBeacon(s, bc) (out)
+//@   property C07
+//@   nopanic
+//@   requires[key_index] s.beaconKey != nil
+//@   modifies *
+//@   loop 0 invariant[only_with_attribute] forall k in keys(filtered): has(all, k) && filtered[k] == all[k] && U_treasure_created(filtered[k]) != 0
+//@   loop 0 invariant[all_with_attribute] forall k in keys(all): visited(k) && U_treasure_created(all[k]) != 0 ==> has(filtered, k)
+//@   loop 1 invariant[only_with_attribute] forall k in keys(filtered): has(all, k) && filtered[k] == all[k] && U_treasure_modified(filtered[k]) != 0
+//@   loop 1 invariant[all_with_attribute] forall k in keys(all): visited(k) && U_treasure_modified(all[k]) != 0 ==> has(filtered, k)
+//@   loop 2 invariant[only_with_attribute] forall k in keys(filtered): has(all, k) && filtered[k] == all[k] && U_treasure_exp(filtered[k]) != 0
+//@   loop 2 invariant[all_with_attribute] forall k in keys(all): visited(k) && U_treasure_exp(all[k]) != 0 ==> has(filtered, k)
+//@   ensures[members_carry_the_attribute] forall k in keys(out): has(lastret("Beacon.GetAll"), k) && out[k] == lastret("Beacon.GetAll")[k] && attrof(bc, out[k]) != 0
+//@   ensures[every_record_with_the_attribute_is_a_member] forall k in keys(lastret("Beacon.GetAll")): attrof(bc, lastret("Beacon.GetAll")[k]) != 0 ==> has(out, k)
+
 //@ func (*swamp).buildBeacon(s, beaconASC, beaconDESC, bc)
 //@   property C07
 //@   requires[indexes] beaconASC != nil && beaconDESC != nil && ipay(beaconASC) != ipay(beaconDESC)
